@@ -1009,6 +1009,8 @@ class Interp:
             return Opaque(o.tag + "[..]")
         if isinstance(o, (Arr, SymArr, StoreArr)):
             return o[ix]
+        if isinstance(o, range):
+            o = list(o)
         if isinstance(o, (list, tuple)):
             if isinstance(ix, (int, slice)):
                 try:
